@@ -95,6 +95,18 @@ class _Edit(ast.NodeTransformer):
         elif k == "unicode" and isinstance(n, ast.Constant) and isinstance(n.value, str) and any(ord(c) > 127 for c in n.value):
             # another character outside ASCII (and, where it was one, outside Latin-1)
             hit = ast.Constant("".join((chr(ord(c) + 1) if ord(c) > 127 else c) for c in n.value))
+        elif k == "unicode_form" and isinstance(n, ast.Constant) and isinstance(n.value, str) and any(ord(c) > 127 for c in n.value):
+            # a different string with the same normal form: decomposed accents, compatibility
+            # characters (micro sign / Greek mu, minus sign / hyphen-minus ...)
+            import unicodedata
+
+            alt = unicodedata.normalize("NFD", n.value)
+            if alt == n.value:
+                alt = unicodedata.normalize("NFKD", n.value)
+            if alt == n.value:
+                alt = n.value.translate({0x03bc: 0x00b5, 0x2212: 0x2013, 0x00e9: 0x00e8})
+            if alt != n.value:
+                hit = ast.Constant(alt)
         elif k == "const_type" and isinstance(n, ast.Constant) and type(n.value) is int:
             hit = ast.Constant(float(n.value)) if self.target % 3 == 0 else (
                 ast.Constant(str(n.value)) if self.target % 3 == 1 else ast.Constant(bool(n.value)))
@@ -135,7 +147,8 @@ class _Edit(ast.NodeTransformer):
 
 
 EDITS = ["operator", "name", "const_value", "const_type", "arg_order", "nesting_add",
-         "nesting_remove", "wrap", "param", "stage_op", "drop_stage", "dup_stage", "unicode"]
+         "nesting_remove", "wrap", "param", "stage_op", "drop_stage", "dup_stage", "unicode",
+         "unicode_form"]
 
 
 def edit_lambda(text, kind, r):
